@@ -28,6 +28,8 @@ def run(ctx):
     lib_module.flags_consumed(ctx, P, funcs={"TableCollection_ibd_segments_within", "TableCollection_ibd_segments_between"})
     lib_module.array_flags(ctx, P, only=ms)
     lib_module.parsed_used(ctx, P, only=ms)
+    lib_module.narrowing(ctx, P)
+    lib_module.format_types(ctx, P, only=ms)
     lib_err.discipline(ctx, P, ["tables"], funcs={f.name for f in P.tus["tables"].funcs.values() if "ibd" in f.name or "identity_segments" in f.name})
     lib_py.kw_forward(ctx, py, mods=("trees", "tables"), only=ps)
     lib_py.unused_params(ctx, py, mods=("trees", "tables"), only=ps)
